@@ -192,6 +192,24 @@ func genConfig(prop string, rng *rand.Rand) cfgT {
 			perSender()
 		}
 	}
+	// C05/C06 quantify over "all configurations accepted by NewTxCache": one history in sixteen sets one field to a value on
+	// either side of the boundary of config.verify(); the model's constructor (TxTypes.verify_config) must give the same verdict
+	if (base == "C05" || base == "C06" || base == "C04") && core.Chance(rng, 1, 16) {
+		switch rng.Intn(6) {
+		case 0:
+			c.chunks = core.Pick(rng, []uint32{0, 1, 128, 129})
+		case 1:
+			c.numBytes = core.Pick(rng, []uint32{0, 3, 4, 1 << 30, 1<<30 + 1})
+		case 2:
+			c.bytesPerSender = core.Pick(rng, []uint32{0, 1, 1 << 25, 1<<25 + 1})
+		case 3:
+			c.count = core.Pick(rng, []uint32{0, 3, 4})
+		case 4:
+			c.countPerSender = core.Pick(rng, []uint32{0, 1})
+		default:
+			c.batch = core.Pick(rng, []uint32{0, 1})
+		}
+	}
 	return c
 }
 
@@ -546,7 +564,12 @@ func (comp) Run(h *core.History, scratch string) *core.Result {
 	hst := &host{byHash: map[string]*txSpec{}}
 	cache, err := txcache.NewTxCache(cfg, hst)
 	if err != nil {
-		res.AddObs("!config-rejected")
+		// same convention as the model driver: the constructor's refusal is an observation of its own
+		res.Obs = append(res.Obs, "init-rejected")
+		for range h.Ops {
+			res.Obs = append(res.Obs, "r !nostate")
+		}
+		res.Hit("config-rejected")
 		return res
 	}
 	// harness bookkeeping for the monitors (from the property texts, not from the model)
